@@ -57,6 +57,11 @@ fn check(t: &mut Tape, ctx: &mut Ctx) -> CheckResult {
         ctx.sub("native-path-refuses-pending");
         ensure!(ctx, try_define_map_arrow(&functor, &l).is_none(), "native-path-refuses-pending", "try_define_map_arrow returned a diagram for an input with a pending unification");
         ensure!(ctx, map_arrow_witness(&functor, &l).is_none(), "native-path-refuses-pending", "map_arrow_witness returned a result for an input with a pending unification");
+        // relabelling nodes or hyperedges (here: with the identity) glues nothing: still refused
+        {
+            let l3 = l.clone().map_nodes(|o| o).map_edges(|a| a);
+            ensure!(ctx, try_define_map_arrow(&functor, &l3).is_none() && map_arrow_witness(&functor, &l3).is_none(), "native-path-refuses-pending", "after map_nodes / map_edges the native path accepts a diagram that still has its pending unification");
+        }
         // a diagram whose pending pair joins two differently labelled nodes still has a pending
         // unification after a quotient attempt has failed on it: the refusal must not depend on history
         let others: Vec<usize> = (0..n).filter(|&v| d.nodes[v] != d.nodes[a]).collect();
